@@ -249,8 +249,9 @@ let handle (c : Sexp.t) : string =
   (* ---------------- the property oracle on what the implementation did *)
   let emitted = String.concat "" faultlines in
   let sent_error_message : string option =
-    (* the (error ..) reply the client was given: at the faulty point, or (fault-free run) a real one from the solver *)
-    if point >= 0 then (if fault_kind = "error" || fault_kind = "errortext" || fault_kind = "errorexit" then error_reply_message emitted else None)
+    (* the (error ..) reply the client was given: at the faulty point (injected, or a real one passed on by
+       split / pad / reply-then-exit), or - fault-free run - a real one from the solver *)
+    if point >= 0 then error_reply_message emitted
     else (match List.rev lines with l :: _ -> error_reply_message l | [] -> None)
   in
   let intact_kinds = ["split"; "pad"; "replyexit0"; "replyexit1"; "none"] in
@@ -263,7 +264,9 @@ let handle (c : Sexp.t) : string =
         else if (not eof) && nb > 0 && ab <= 0 then Error ("hang:open-paren-inside-string", "a complete reply whose string literal contains '(' is taken as unbalanced: the client waits for ever")
         else Error ("hang:other", "the run does not return")
     | "panic" ->
-        if point < 0 && impl.sub = "patronus/src/mc/bmc.rs:58" then Ok () (* the documented assertion on unsatisfiable constraints: not a solver fault *)
+        (* bmc.rs:58 is the documented assertion "constraints are satisfiable" (check_constraints): when the
+           fault-free run ends there too and the faulty reply was delivered intact, it is not a solver-fault issue *)
+        if impl.sub = "patronus/src/mc/bmc.rs:58" && same nominal impl && (point < 0 || List.mem fault_kind intact_kinds) then Ok ()
         else Error ("panic@" ^ impl.sub, "the run panics")
     | "crash" | "start-failed" | "?" -> Error ("crash", "the worker died without an outcome")
     | "err" ->
